@@ -2,6 +2,7 @@ import Pixman.Model.CombineQ
 import Pixman.Model.CompositePixel
 import Pixman.Gen.OperatorTable
 import Pixman.Gen.SrgbTable
+import Pixman.Model.Format
 /-! One pixel through `pixman_image_composite32` when `general_composite_rect` runs the wide
 (float) pipeline: presentation → opacity flags → `optimize_operator` → narrow/wide decision
 (`operator_needs_division`, `FAST_PATH_NARROW_FORMAT`) → widening of every format to `argb_t`
@@ -91,6 +92,28 @@ def fetch (p : Pres) (vals : List Nat) : Option Px :=
       | _, _, _ => Option.none
     | _, _ => Option.none
 
+/-- narrowing of one channel as the wide pipeline stores it: a wide packed format calls
+`float_to_unorm (v, n)`; a narrow format goes through `pixman_contract_from_float` (8 bits) and
+the 32-bit store, which keeps the n most significant bits (`Pixman.Model.Format`, property C10) -/
+def narrowChannel (wide : Bool) (n : Nat) (v : Rat) : Nat :=
+  if wide then Pixman.Model.Format.floatToUnorm v n else Pixman.Model.Format.floatToUnorm v 8 >>> (8 - n)
+
+/-- the bits of a packed pixel that belong to a channel -/
+def definedMask (u : Fmt) : Nat :=
+  let (sa, sr, sg, sb) := u.shifts
+  ((2 ^ u.a - 1) <<< sa) ||| ((2 ^ u.r - 1) <<< sr) ||| ((2 ^ u.g - 1) <<< sg) ||| ((2 ^ u.b - 1) <<< sb)
+
+/-- narrowing (store) of one float pixel in a packed format; the binary32 formats are copied by
+the library (`store_scanline_rgbaf_float`), their rounding is not modelled: `none` -/
+def store (f : WFmt) (v : Px) : Option (List Nat) :=
+  match f.kind with
+  | .unorm u =>
+    let (sa, sr, sg, sb) := u.shifts
+    let ch (n sh : Nat) (x : Rat) : Nat := if n = 0 then 0 else narrowChannel f.wide n x <<< sh
+    some [ch u.a sa v.a ||| ch u.r sr v.r ||| ch u.g sg v.g ||| ch u.b sb v.b]
+  | .srgb => some [Pixman.Model.Format.storeSrgbFloat ⟨v.a, v.r, v.g, v.b⟩]
+  | _ => Option.none
+
 /-- `FAST_PATH_IS_OPAQUE` as `pixman_image_composite32` sees a source or mask whose samples cover
 the composite area; never for a component-alpha mask (same rule as the narrow model) -/
 def Pres.srcOpaque (p : Pres) (vals : List Nat) (componentAlpha : Bool) : Bool :=
@@ -112,6 +135,24 @@ def flag (b : Bool) : Nat := if b then Pixman.Gen.OperatorTable.FAST_PATH_IS_OPA
 def effectiveOp (op : Nat) (ca : Bool) (src mask : Pres) (s m : List Nat) : Nat :=
   Pixman.Gen.OperatorTable.optimizeOperator op (flag (src.srcOpaque s false))
     (flag (mask.srcOpaque m ca)) 0
+
+/-- is there a mask image? -/
+def Pres.present : Pres → Bool
+  | .none => false
+  | _ => true
+
+/-- `PIXMAN_TYPE_*` number of a packed format's type -/
+def typeCode : FType → Nat
+  | .a => 1 | .argb => 2 | .abgr => 3 | .bgra => 8 | .rgba => 9
+
+/-- channel widths a r g b and `PIXMAN_FORMAT_TYPE` of a format (a8r8g8b8_sRGB: type 10; the
+float formats: type 11, 32-bit channels) -/
+def WFmt.dims (f : WFmt) : Nat × Nat × Nat × Nat × Nat :=
+  match f.kind with
+  | .unorm u => (u.a, u.r, u.g, u.b, typeCode u.type)
+  | .srgb => (8, 8, 8, 8, 10)
+  | .rgbaFloat => (32, 32, 32, 32, 11)
+  | .rgbFloat => (0, 32, 32, 32, 11)
 
 /-- does the request run in the 8-bit pipeline? -/
 def runsNarrow (op' : Nat) (src mask dst : Pres) : Bool :=
